@@ -186,6 +186,8 @@ class ExprMixin:
             return '0'
         if ck == 'ToVoid':
             return f'((void)({self.ex(sub)}))'
+        if ck in ('DerivedToBase', 'UncheckedDerivedToBase') and self.family(self.tyof(sub)) == 'iter' and self.family(self.tyof(n)) == 'iter':
+            return self.ex(sub)          # library iterator compared through its base class: same model pointer
         raise LoweringError(f'no rule for cast kind {ck}')
 
     def explicit_cast(self, n):
